@@ -35,7 +35,7 @@ ASSUMPTIONS = ["wildcards take no arguments (default wildcard: every expression 
                "LF line ends, UTF-8; overlapping windows of a multi-statement pattern: which of them is rewritten "
                "is not decided by the statement, only 'nothing else changes' is checked there",
                "which occurrence of a repeated wildcard is reported is not decided: any occurrence is accepted"]
-BUDGET = {"quick": (700, 75), "thorough": (60000, 840)}
+BUDGET = {"quick": (2000, 70), "thorough": (80000, 840)}
 EXHAUSTIVE = {}
 REQUIRE = {"patterns_checked": 300, "match_sets_compared": 300, "multi_instance_patterns": 60,
            "nested_instance_patterns": 10, "region_excludes_some_instance": 30, "repeated_wildcard_patterns": 20,
@@ -124,7 +124,7 @@ class Gen:
 
     def atom(self, ml_ok):
         r = self.r
-        if ml_ok and r.random() < 0.03:
+        if ml_ok and r.random() < 0.012:
             return '"""p\n   q"""'
         return r.choice(ATOMS)
 
@@ -251,6 +251,15 @@ class Gen:
             lines = s.split("\n")
             return [sp + lines[0]] + lines[1:]
         n1 = lambda: self.block(ind + 4, r.choice([1, 1, 2]), depth - 1, in_func)
+        if k < 0.62:
+            # a plain `if` and the same arm as the last `elif` of a chain
+            t = r.choice(["x = g({0})", "self.v = {0} * 2", "obj.run({0})", "y = {0}", "n += {0}"])
+            one = lambda: [" " * (ind + 4) + t.format(self.e(1, ml_ok=False))]
+            out = [sp + f"if {self.cond()}:"] + one()
+            out += [sp + f"if {self.cond()}:"] + n1() + [sp + f"elif {self.cond()}:"] + one()
+            if r.random() < 0.5:
+                out += [sp + f"if {self.cond()}:"] + one()
+            return out
         if k < 0.78:
             out = [sp + f"if {self.cond()}:"] + n1()
             for _ in range(r.choice([0, 0, 1, 1, 2])):
@@ -279,7 +288,7 @@ class Gen:
             else:
                 if r.random() < 0.15:
                     out.append("@g(1)")
-                out.append(f"def f{fi}(a, b, *c, x=None):")
+                out.append(f"def f{fi}(a, b, *c, x=None):" if r.random() < 0.3 else f"def f{fi}(a, b, c=(), x=None):")
                 out += self.block(4, r.choice([2, 3, 4, 5]), 2, True)
                 out.append("")
             if r.random() < 0.6:
@@ -362,6 +371,76 @@ def _subexprs(node):
     return out
 
 
+class _Differs(Exception):
+    pass
+
+
+def _lgg(a, b, top):
+    """Anti-unification of two sub-trees: the expression nodes of `a` that must become wildcards for `b` to
+    be an instance too, as (node of a, node of b) pairs."""
+    def here():
+        if not top and isinstance(a, ast.expr) and isinstance(b, ast.expr):
+            return [(a, b)]
+        raise _Differs()
+
+    if type(a) is not type(b):
+        return here()
+    pts = []
+    try:
+        for f in a._fields:
+            va, vb = getattr(a, f, None), getattr(b, f, None)
+            if isinstance(va, ast.expr_context):
+                continue
+            if isinstance(va, ast.AST) and isinstance(vb, ast.AST):
+                pts += _lgg(va, vb, False)
+            elif isinstance(va, list) and isinstance(vb, list):
+                if len(va) != len(vb):
+                    raise _Differs()
+                for x, y in zip(va, vb):
+                    if isinstance(x, ast.AST) and isinstance(y, ast.AST):
+                        pts += _lgg(x, y, False)
+                    elif type(x) is not type(y) or x != y:
+                        raise _Differs()
+            elif type(va) is not type(vb) or va != vb:
+                raise _Differs()
+    except _Differs:
+        return here()
+    return pts
+
+
+def _lgg_points(cx, origin, want_stmt, rnd):
+    """Choose another sub-tree of the module of the same class and generalise the origin just enough."""
+    if want_stmt:
+        k = len(origin)
+        partners = []
+        for n in ast.walk(cx.tree):
+            for f in n._fields:
+                v = getattr(n, f, None)
+                if isinstance(v, list) and len(v) >= k and v and isinstance(v[0], ast.stmt):
+                    for i in range(len(v) - k + 1):
+                        w = v[i:i + k]
+                        if w[0] is not origin[0] and all(type(x) is type(y) for x, y in zip(w, origin)):
+                            partners.append(w)
+    else:
+        partners = [n for n in ast.walk(cx.tree) if type(n) is type(origin) and n is not origin]
+    rnd.shuffle(partners)
+    best = None
+    for p in partners[:12]:
+        try:
+            if want_stmt:
+                pts = []
+                for x, y in zip(origin, p):
+                    pts += _lgg(x, y, True)
+            else:
+                pts = _lgg(origin, p, True)
+        except _Differs:
+            continue
+        distinct = {(refmatch.ndump(a, False), refmatch.ndump(b, False)) for a, b in pts}
+        if 1 <= len(distinct) <= 3 and (best is None or len(pts) < len(best)):
+            best = pts
+    return best
+
+
 def make_pattern(cx, rnd):
     """-> dict(text, kind, origin nodes, nwild, repeated) or None"""
     tree, offs, src = cx.tree, cx.offs, cx.source
@@ -398,6 +477,12 @@ def make_pattern(cx, rnd):
             return None
         origin = o
         ls = s
+    if not want_stmt and rnd.random() < 0.02:
+        # the bare wildcard: every expression of the module is an instance
+        t = "${a}"
+        pat = refmatch.Pattern(t, avoid=src)
+        return {"text": t, "pat": pat, "origin": origin, "nwild": 1, "repeated": False,
+                "root": "Wildcard", "mode": "bare"}
     subs = [n for n in _subexprs(origin) if id(n) not in cx.in_fstr]
     nw = rnd.choice([0, 1, 1, 2, 2, 3]) if subs else 0
     chosen = []  # (start, end, name)
@@ -405,6 +490,22 @@ def make_pattern(cx, rnd):
     names = ["a", "b", "c"]
     rnd.shuffle(names)
     repeated = False
+    mode = "random"
+    if rnd.random() < 0.4:
+        pts = _lgg_points(cx, origin, want_stmt, rnd)
+        if pts:
+            mode, nw = "lgg", 0
+            seen = {}
+            for n, other in pts:
+                if id(n) in cx.in_fstr:
+                    return None
+                k = (refmatch.ndump(n, False), refmatch.ndump(other, False))
+                if k in seen:
+                    repeated = True
+                else:
+                    seen[k] = ("?" if rnd.random() < 0.4 else "") + names[len(seen)]
+                reg = offs.region(n)
+                chosen.append((reg[0], reg[1], seen[k]))
     for wi in range(nw):
         free = [n for n in subs if not any(not (offs.region(n)[1] <= a or offs.region(n)[0] >= b) for a, b in taken)]
         if not free:
@@ -429,7 +530,7 @@ def make_pattern(cx, rnd):
     if want_stmt:
         text = textwrap.dedent(text)
     lit = refmatch.WILD_RE.sub("", text)
-    if "${" in lit or "$" in lit:
+    if "${" in lit:
         return None
     cand = [text] if want_stmt else [text, "(" + text + ")"]
     for t in cand:
@@ -441,7 +542,7 @@ def make_pattern(cx, rnd):
             continue
         if refmatch.why_not(pat, origin) is None:
             return {"text": t, "pat": pat, "origin": origin, "nwild": len({c[2] for c in chosen}),
-                    "repeated": repeated, "root": type(origin[0] if want_stmt else origin).__name__}
+                    "repeated": repeated, "root": type(origin[0] if want_stmt else origin).__name__, "mode": mode}
     return None
 
 
@@ -556,8 +657,10 @@ def check_matching(res, cx, p, rnd):
         finder = cx.raw_finder() if use_raw else cx.finder
         full = list(finder.get_matches(text))
     except Exception as e:  # noqa: BLE001 - any escape on a valid pattern is a finding
-        fs = "fstring-piece" if _fstring_piece_hit(cx, ref) else "plain"
-        res.violation(f"exc|{core.exc_sig(e)}|{fs}",
+        fs = _fstring_piece_hit(cx, ref)
+        if isinstance(e, SyntaxError) and _has_fstring(text):
+            fs = "pattern-contains-fstring"
+        res.violation(_exc_key(e, fs),
                       f"get_matches raised {type(e).__name__}: {str(e)[:120]} on a pattern made from the module",
                       pattern=text, source=src)
         return None
@@ -574,6 +677,7 @@ def check_matching(res, cx, p, rnd):
         if k not in ropekeys:
             m = refkeys[k]
             nested = any(o is not m and o.region[0] <= m.region[0] and m.region[1] <= o.region[1] for o in ref)
+            p["sets_differ"] = True
             res.violation(f"match|missing|{kind}|nested={int(nested)}|region=full",
                           "an instance of the pattern in the module is not reported", pattern=text, source=src,
                           instance=src[m.region[0]:m.region[1]], api=api)
@@ -582,7 +686,11 @@ def check_matching(res, cx, p, rnd):
             m = ropekeys[k]
             nodes = m.ast if kind == "expr" else m.ast_list
             why = refmatch.why_not(pat, nodes)
-            reg = m.get_region()
+            try:
+                reg = m.get_region()
+            except AttributeError:
+                reg = (0, 0)
+            p["sets_differ"] = True
             res.violation(f"match|extra|{kind}|{why}", "a reported match is not an instance of the pattern",
                           pattern=text, source=src, reported=src[reg[0]:reg[1]], api=api)
     if len(full) != len(ropekeys):
@@ -590,6 +698,8 @@ def check_matching(res, cx, p, rnd):
     # ---- bindings + soundness on rope's own answer
     for k, m in ropekeys.items():
         rm = refkeys.get(k)
+        if rm is None:
+            continue  # already reported as not being an instance
         reg = tuple(m.get_region())
         if rm is not None:
             for w in pat.names:
@@ -615,7 +725,7 @@ def check_matching(res, cx, p, rnd):
                 break
             t = src[node.region[0]:node.region[1]]
             if rm is not None and t != offs.text(node) and not _same_modulo_parens(t, offs.text(node)):
-                bad_class = type(node).__name__
+                bad_class = _region_culprit(cx, node)
             subst[w] = _wrap(node, t)
         if bad_class == "none":
             continue
@@ -630,8 +740,15 @@ def check_matching(res, cx, p, rnd):
                     refmatch.ndump(got.body[0].value, False) == refmatch.ndump(nodes[0], False)
             else:
                 ok = refmatch.ndump(got.body, False) == refmatch.ndump(nodes, False)
+        if not ok and not bad_class and any(isinstance(m.get_ast(w), _NOPAREN) for w in pat.names):
+            # a slice / starred argument bound by a wildcard that stands in parentheses in the pattern: the
+            # text cannot be substituted there; judge on the trees instead
+            binds = {w: m.get_ast(w) for w in pat.names}
+            inst = refmatch._instantiate(pat, binds)
+            ok = refmatch.ndump(inst if kind == "stmts" else inst[0], False) == \
+                refmatch.ndump(nodes if kind == "stmts" else nodes[0], False)
         if not ok:
-            res.violation(f"binding-region-wrong|{bad_class}" if bad_class else f"sound|not-instance|{kind}",
+            res.violation(f"node-region-wrong|{bad_class}" if bad_class else f"sound|not-instance|{kind}",
                           "substituting the text of the bound regions for the wildcards does not give the matched code",
                           pattern=text, source=src, substituted=code, matched=src[reg[0]:reg[1]])
     # ---- requested region
@@ -639,7 +756,7 @@ def check_matching(res, cx, p, rnd):
     try:
         part = list(finder.get_matches(text, start=s, end=e))
     except Exception as ex:  # noqa: BLE001
-        res.violation(f"exc|{core.exc_sig(ex)}|region-call", f"get_matches(start,end) raised "
+        res.violation(_exc_key(ex, "region-call"), f"get_matches(start,end) raised "
                       f"{type(ex).__name__}", pattern=text, source=src, start=s, end=e)
         return ref, full, rk
     res.evals()
@@ -652,8 +769,9 @@ def check_matching(res, cx, p, rnd):
     for k, m in got.items():
         rm = refkeys.get(k)
         if rm is not None and k not in want:
-            cls = k[1][0]
-            res.violation(f"region|outside-requested|{kind}|{cls}", "a match that does not lie inside [start, end) "
+            wrong = tuple(m.get_region()) != tuple(rm.region)
+            cls = _region_culprit(cx, _boundary_node(m, rm)) if wrong else ""
+            res.violation(f"node-region-wrong|{cls}" if wrong else f"region|outside-requested|{kind}", "a match that does not lie inside [start, end) "
                           "is reported", pattern=text, source=src, start=s, end=e, true_region=list(rm.region),
                           rope_region=list(m.get_region()))
     for k in want:
@@ -664,6 +782,12 @@ def check_matching(res, cx, p, rnd):
     return ref, full, rk
 
 
+def _boundary_node(rope_match, ref_match):
+    """rope's node at the boundary of the match where its region departs from the text of the instance"""
+    nodes = [rope_match.ast] if hasattr(rope_match, "ast") else rope_match.ast_list
+    return nodes[0] if rope_match.get_region()[0] != ref_match.region[0] else nodes[-1]
+
+
 def _same_modulo_parens(a, b):
     a, b = a.strip(), b.strip()
     for x, y in ((a, b), (b, a)):
@@ -672,8 +796,48 @@ def _same_modulo_parens(a, b):
     return False
 
 
+def _exc_key(e, label):
+    """One key per mechanism: a node without region raises at whichever place first asks for it."""
+    if isinstance(e, AttributeError) and "has no attribute 'region'" in str(e):
+        return f"exc|node-without-region|{label}"
+    return f"exc|{core.exc_sig(e)}|{label}"
+
+
+def _has_fstring(text):
+    import io
+    import tokenize
+    try:
+        code = refmatch.WILD_RE.sub("w", text)
+        return any(t.type == tokenize.FSTRING_START for t in tokenize.generate_tokens(io.StringIO(code).readline))
+    except (tokenize.TokenError, SyntaxError, IndentationError):
+        return False
+
+
 def _fstring_piece_hit(cx, ref):
-    return any(id(n) in cx.in_fstr for m in ref for n in m.nodes)
+    """Which kind of node of an instance has no region in rope's annotated tree?  The first one in rope's
+    traversal order (classification of an escaped AttributeError only, not an oracle)."""
+    mine = {}
+    for m in ref:
+        for n in list(m.nodes) + [b for bs in m.bindings.values() for b in bs]:
+            for d in ast.walk(n):
+                if hasattr(d, "lineno"):
+                    mine.setdefault(_pykey(d), d)
+
+    def pre(n):
+        yield n
+        for c in ast.iter_child_nodes(n):
+            yield from pre(c)
+
+    try:
+        for n in pre(cx.rope_tree):
+            if isinstance(n, (ast.expr, ast.stmt)) and not hasattr(n, "region") and _pykey(n) in mine:
+                k = id(mine[_pykey(n)])
+                return ("fstring-piece" if k in cx.in_fstr else "arg-annotation" if k in cx.in_argann else
+                        "kwonly-default" if k in cx.in_kwdef else "returns-annotation" if k in cx.in_returns
+                        else "classdef-keyword" if k in cx.in_classkw else "other-unregioned")
+    except Exception:  # noqa: BLE001
+        pass
+    return "plain"
 
 
 def choose_region(cx, ref, rnd):
@@ -716,18 +880,44 @@ _ATOMIC = (ast.Name, ast.Attribute, ast.Subscript, ast.Call, ast.List, ast.Dict,
 
 
 def _wrap(node, text):
-    """text of a bound node made safe for insertion at an atom position"""
-    if isinstance(node, _NOPAREN) or isinstance(node, _ATOMIC):
-        return text
-    if isinstance(node, ast.Constant) and isinstance(node.value, (str, bytes)):
+    """text of a bound node made safe for insertion at the place of a wildcard (an atom)"""
+    if isinstance(node, _NOPAREN) or isinstance(node, ast.Name):
         return text
     return "(" + text + ")"
+
+
+def _region_culprit(cx, node):
+    """Class of the innermost node below `node` (a node of rope's annotated tree) whose region is not its
+    text: the same wrong literal shows in every enclosing node, the key names where it starts."""
+    best = None
+    for d in ast.walk(node):
+        if not isinstance(d, (ast.expr, ast.stmt)) or not hasattr(d, "region") or not hasattr(d, "end_lineno"):
+            continue
+        want = (cx.offs.at(d.lineno, d.col_offset), cx.offs.at(d.end_lineno, d.end_col_offset))
+        got = tuple(d.region)
+        if got != want and not _same_modulo_parens(cx.source[got[0]:got[1]], cx.source[want[0]:want[1]]):
+            if best is None or (want[1] - want[0]) < best[0]:
+                label = type(d).__name__
+                if isinstance(d, ast.Constant):
+                    label += "-" + ("number" if isinstance(d.value, (int, float, complex)) and
+                                    not isinstance(d.value, bool) else type(d.value).__name__)
+                best = (want[1] - want[0], label)
+    return best[1] if best else type(node).__name__
+
+
+def _auto_indent(src, pos, text):
+    ls = src.rfind("\n", 0, pos) + 1
+    line = src[ls:src.find("\n", ls) if "\n" in src[ls:] else len(src)]
+    ind = len(line) - len(line.lstrip(" "))
+    lines = text.splitlines(True)
+    return "".join((" " * ind + ln if i and ln.strip() else ln) for i, ln in enumerate(lines))
 
 
 def _str_consts(tree):
     out = {}
     for c in ast.walk(tree):
-        if isinstance(c, ast.Constant) and isinstance(c.value, (str, bytes)) and "\n" in repr(c.value):
+        if isinstance(c, ast.Constant) and isinstance(c.value, (str, bytes)) and \
+                (chr(10) in c.value if isinstance(c.value, str) else b"\n" in c.value):
             out[repr(c.value)] = out.get(repr(c.value), 0) + 1
     return out
 
@@ -740,38 +930,67 @@ def causes_of(cx, pat, goal, goal_text, ref, full, strict, new_tree, expected):
     out = set()
     ropebykey = {_rope_match_key(m): m for m in (full or [])}
     for m in ref:
+        # (h) the instance does not start its line (`while c: x = 1`): the goal's further lines are indented
+        # like the line, not like the statement
+        if m.kind == "stmts" and "\n" in goal_text.strip("\n"):
+            ls = src.rfind("\n", 0, m.region[0]) + 1
+            if src[ls:m.region[0]].strip():
+                out.add("instance-not-at-line-start")
         # (c) the instance is the `elif` arm of a chain: replacing its text cuts the chain
         if m.kind == "stmts" and id(m.nodes[0]) in cx.elifs:
             out.add("elif-instance")
         # (f) the region rope reports for a bound node is not the node's text
         rm = ropebykey.get(_ref_match_key(m))
         if rm is not None:
+            rr = tuple(rm.get_region())
+            if rr != tuple(m.region) and not _same_modulo_parens(src[rr[0]:rr[1]], src[m.region[0]:m.region[1]]):
+                out.add("node-region-wrong|" + _region_culprit(cx, _boundary_node(rm, m)))
             for w in goal.names:
                 node = rm.get_ast(w)
                 if node is not None and hasattr(node, "region"):
                     t = src[node.region[0]:node.region[1]]
                     if t != offs.text(node) and not _same_modulo_parens(t, offs.text(node)):
-                        out.add("binding-region-wrong|" + type(node).__name__)
-        # (a) the bound text needs parentheses at its place in the goal
-        texts = {w: offs.text(m.first(w)) for w in goal.names}
-        gtext = refmatch.WILD_RE.sub(lambda mo: texts[mo.group(1)], goal_text)
-        inst = refmatch.instantiate_one(goal, m)
-        if goal.kind == "expr":
-            g2 = _parse_expr(gtext)
-            same = g2 is not None and refmatch.ndump(g2, flat) == refmatch.ndump(inst[0], flat)
-        else:
-            g2 = _parse_or_none(gtext)
-            same = g2 is not None and refmatch.ndump(g2.body, flat) == refmatch.ndump(inst, flat)
-        if not same:
+                        out.add("node-region-wrong|" + _region_culprit(cx, node))
+        # (a)/(b) text model of this instance alone (instances nested in its bindings taken as correctly
+        # rewritten): goal with the bound texts put at the place of the instance, continuation lines
+        # indented like rope does; which parentheses would have repaired it?
+        s, e = m.region
+        sub = [x for x in ref if s <= x.region[0] and x.region[1] <= e]
+        rw = refmatch.Rewriter(sub, goal)
+        texts, safe = {}, {}
+        for w in goal.names:
+            b = m.first(w)
+            bs, be = offs.region(b)
+            if any(x is not m and bs <= x.region[0] and x.region[1] <= be for x in sub):
+                nb = rw.rewrite(b, force=(m.kind == "expr" and b is m.nodes[0]))
+                try:
+                    texts[w] = ast.unparse(ast.fix_missing_locations(nb))
+                except Exception:  # noqa: BLE001
+                    texts[w] = offs.text(b)
+                if isinstance(nb, (ast.Tuple, ast.NamedExpr, ast.Yield, ast.YieldFrom, ast.GeneratorExp)) and \
+                        texts[w][:1] == "(" and offs.text(b)[:1] != "(":
+                    texts[w] = texts[w][1:-1]  # unparse adds these itself; rope's text would not have them
+                safe[w] = _wrap(nb, texts[w])
+            else:
+                texts[w] = offs.text(b)
+                safe[w] = _wrap(b, texts[w])
+        raw = refmatch.WILD_RE.sub(lambda mo: texts[mo.group(1)], goal_text)
+        wrapped = refmatch.WILD_RE.sub(lambda mo: safe[mo.group(1)], goal_text)
+        want = refmatch.ndump(rw.rewrite(cx.tree), flat)
+
+        def ok(piece):
+            got = _parse_or_none(src[:s] + _auto_indent(src, s, piece) + src[e:])
+            return got is not None and refmatch.ndump(got, flat) == want
+
+        if ok(raw):
+            continue
+        if ok(wrapped):
             out.add("binding-needs-parens")
-        # (b) the replacement (bindings parenthesised) needs parentheses at the place of the instance
-        if m.kind == "expr" and goal.kind == "expr":
-            s, e = m.region
-            exp = refmatch.replace_node(cx.tree, m.nodes[0], inst)
-            safe = {w: _wrap(m.first(w), texts[w]) for w in goal.names}
-            piece = refmatch.WILD_RE.sub(lambda mo: safe[mo.group(1)], goal_text)
-            got = _parse_or_none(src[:s] + piece + src[e:])
-            if got is None or refmatch.ndump(got, flat) != refmatch.ndump(exp, flat):
+        elif m.kind == "expr" and goal.kind == "expr":
+            if ok("(" + raw + ")"):
+                out.add("replacement-needs-parens")
+            elif ok("(" + wrapped + ")"):
+                out.add("binding-needs-parens")
                 out.add("replacement-needs-parens")
     # (g) continuation lines of the replacement are re-indented, also inside a multi-line string token
     if expected is not None:
@@ -783,18 +1002,25 @@ def causes_of(cx, pat, goal, goal_text, ref, full, strict, new_tree, expected):
                     out.add("multiline-string-reindented")
             elif not out:
                 out.add("multiline-string-reindented")
-    # (d) statement instances are rewritten in traversal order, not text order
-    if pat.kind == "stmts" and full:
+    # (d) statement instances are rewritten in traversal order, not text order: an instance that starts before
+    # the end of one rewritten earlier in that order is left alone.  Established by the counterfactual "the
+    # result is exactly the module with those instances left alone".
+    if pat.kind == "stmts" and full and not strict and new_tree is not None:
         last_end = -1
-        done = []
+        done, skipped = [], set()
         for m in full:
             s, e = m.get_region()
             if s < last_end:
                 if not any(s < de and e > ds for ds, de in done):
-                    out.add("stmt-instance-skipped-by-order")
+                    skipped.add(_rope_match_key(m))
                 continue
             last_end = e
             done.append((s, e))
+        if skipped:
+            kept = [m for m in ref if _ref_match_key(m) not in skipped]
+            alt = refmatch.Rewriter(kept, goal).rewrite(cx.tree)
+            if refmatch.ndump(alt, flat) == refmatch.ndump(new_tree, flat):
+                return {"stmt-instance-skipped-by-order"}
     return out
 
 
@@ -815,12 +1041,30 @@ def check_restructure(res, cx, p, gkind, goal_text, ref, full, via):
         raise AssertionError("goal uses unknown wildcard")
     identity = gkind == "identity"
     overlap = kind == "stmts" and refmatch.overlapping(ref)
+    for m in ref:
+        safe = {w: _wrap(m.first(w), cx.offs.text(m.first(w))) for w in goal.names}
+        gt = refmatch.WILD_RE.sub(lambda mo: safe[mo.group(1)], goal_text)
+        inst = refmatch.instantiate_one(goal, m)
+        if goal.kind == "expr":
+            g2 = _parse_expr(gt)
+            fine = g2 is not None and refmatch.ndump(g2, False) == refmatch.ndump(inst[0], False)
+        else:
+            g2 = _parse_or_none(gt)
+            fine = g2 is not None and refmatch.ndump(g2.body, False) == refmatch.ndump(inst, False)
+        if not fine:
+            # e.g. a wildcard bound to a slice or a starred argument used where only an expression can stand
+            res.ev("discarded_goal_text_meaningless_for_binding")
+            return
     expected = None
     if not overlap:
         try:
             exp_tree = refmatch.Rewriter(ref, goal).rewrite(cx.tree)
             exp_src = ast.unparse(ast.fix_missing_locations(exp_tree))
             compile(exp_src, "<expected>", "exec", dont_inherit=True)
+            if refmatch.ndump(ast.parse(exp_src), False) != refmatch.ndump(exp_tree, False):
+                # the tree-level result is not a tree Python's parser can produce (e.g. an operator applied
+                # to a slice): the goal is not meaningful at some instance
+                raise ValueError("not a Python tree")
             expected = exp_tree
         except (SyntaxError, ValueError, RecursionError):
             res.ev("discarded_goal_invalid_at_some_instance")
@@ -835,9 +1079,9 @@ def check_restructure(res, cx, p, gkind, goal_text, ref, full, via):
             for c in changes.changes:
                 new = c.new_contents
     except Exception as e:  # noqa: BLE001
-        fs = "fstring-piece" if _fstring_piece_hit(cx, ref) else "plain"
-        res.violation(f"exc|{core.exc_sig(e)}|{fs}", f"{via} raised {type(e).__name__}: {str(e)[:120]}",
-                      pattern=text, goal=goal_text, source=src)
+        fs = _fstring_piece_hit(cx, ref)
+        res.violation(_exc_key(e, fs), f"{via} raised {type(e).__name__}: {str(e)[:120]}",
+                      pattern=text, goal=goal_text, source=src, where=core.exc_sig(e))
         return
     res.evals()
     nested = any(a is not b and a.region[0] <= b.region[0] and b.region[1] <= a.region[1] for a in ref for b in ref)
@@ -847,7 +1091,7 @@ def check_restructure(res, cx, p, gkind, goal_text, ref, full, via):
     # ---- everything else untouched
     segs = refmatch.outside_segments(src, [m.region for m in ref])
     if not refmatch.decomposes(new, segs):
-        res.violation(f"restructure|outside-changed|{kind}|{feat}",
+        res.violation(f"restructure|outside-changed|{kind}",
                       "text outside the instances of the pattern was changed", **detail)
     res.ev("outside_text_checked")
     if overlap:
@@ -879,11 +1123,14 @@ def check_restructure(res, cx, p, gkind, goal_text, ref, full, via):
                       "expression pattern unreplaced", **detail)
         return
     cs = causes_of(cx, pat, goal, goal_text, ref, full, strict, new_tree, cx.tree if identity else expected)
+    if "${" in new and "${" not in src:
+        cs = {"wildcard-left-in-output|goal-contains-fstring" if _has_fstring(goal_text)
+              else "wildcard-left-in-output|plain"}
     if not cs:
-        cs = {f"unexplained|{via}|{kind}|{clause}|{feat}"}
+        cs = {f"unexplained|{kind}|nested={int(nested)}"}
     for c in sorted(cs):
-        key = c if c.startswith("binding-region-wrong") else "restructure|" + c
-        res.violation(key, what + " [" + c + "]", clause=clause, via=via, kind=kind, **detail,
+        key = c if c.startswith("node-region-wrong") else "restructure|" + c
+        res.violation(key, what + " [" + c + "]", clause=clause, via=via, kind=kind, features=feat, **detail,
                       expected=_safe_unparse(expected))
 
 
@@ -917,9 +1164,17 @@ def run_case(spec):
     cx = Ctx()
     cx.source = src
     cx.tree = ast.parse(src)
-    cx.offs = refmatch.Offsets(src)
+    cx.offs = refmatch.Offsets(src, cx.tree)
     cx.in_fstr = _inside_fstring(cx.tree)
     cx.elifs = _elif_nodes(cx)
+    cx.in_returns = {id(d) for n in ast.walk(cx.tree) if isinstance(n, (ast.FunctionDef, ast.AsyncFunctionDef))
+                     and n.returns is not None for d in ast.walk(n.returns)}
+    cx.in_classkw = {id(d) for n in ast.walk(cx.tree) if isinstance(n, ast.ClassDef)
+                     for k in n.keywords for d in ast.walk(k.value)}
+    cx.in_kwdef = {id(d) for n in ast.walk(cx.tree) if isinstance(n, ast.arguments)
+                   for k in n.kw_defaults if k is not None for d in ast.walk(k)}
+    cx.in_argann = {id(d) for n in ast.walk(cx.tree) if isinstance(n, ast.arg) and n.annotation is not None
+                    for d in ast.walk(n.annotation)}
     warnings.simplefilter("ignore")
     with core.Scratch() as tmp:
         project = Project(tmp, ropefolder=None, automatic_soa=False, save_history=False, save_objectdb=False)
@@ -929,6 +1184,7 @@ def run_case(spec):
             cx.resource.write(src)
             try:
                 pymodule = project.get_pymodule(cx.resource)
+                cx.rope_tree = pymodule.get_ast()
                 cx.finder = similarfinder.SimilarFinder(pymodule)
             except Exception as e:  # noqa: BLE001
                 res.evals()
@@ -963,6 +1219,8 @@ def run_case(spec):
 def _one_pattern(res, cx, p, rnd, sample):
     pat = p["pat"]
     res.ev("patterns_checked")
+    if p["mode"] == "lgg":
+        res.ev("patterns_by_anti_unification")
     if pat.kind == "stmts":
         res.ev("stmt_patterns")
     if p["repeated"]:
@@ -985,6 +1243,10 @@ def _one_pattern(res, cx, p, rnd, sample):
                 res.ev("binding_lower_precedence")
             if b.end_lineno > b.lineno:
                 res.ev("multiline_binding")
+    if p.get("sets_differ"):
+        # the expectation for a restructuring is built on the instances; a wrong match set was reported above
+        res.ev("restructure_skipped_match_sets_differ")
+        return
     goals = make_goals(p, rnd)
     for gkind, gtext in goals:
         check_restructure(res, cx, p, gkind, gtext, ref, full, "Restructure")
